@@ -99,6 +99,53 @@ def gen_case(rng, klass):
     return {"op": "hist", "cfg": cfg, "ops": ops, "drain": rng.choice([0, 5, 40, 40]), "fresh": True, "freshsteps": 60, "klass": klass}
 
 
+def gen_swa_case(rng, klass):
+    """sliding-window caches (kvcache.NewSWACache): window 2..8 smaller than the context, both slot policies"""
+    w = rng.choice([2, 2, 3, 3, 4, 5, 6, 8])
+    numctx = w + rng.choice([1, 2, 3, 4, 6])
+    parallel = rng.choice([1, 1, 2, 2, 3])
+    vocab = rng.choice([3, 4, 6])
+    cfg = {"parallel": parallel, "kv": parallel * numctx, "batch": rng.choice([1, 2, 3, 4, 8]), "vocab": vocab, "eos": -1,
+           "multi": rng.random() < 0.5, "shift": rng.random() < 0.6, "partial": True, "resume": True, "pad": rng.choice([1, 1, 4]),
+           "maskpad": 1, "window": w}
+
+    def keep():
+        return 0 if rng.random() < 0.8 else rng.choice([1, 2, -1])
+    base = rnd_toks(rng, vocab, numctx + 3)
+    ops = []
+    if klass == "swa-repeat":
+        # a prompt longer than the window, k tokens generated (the slot then records prompt + k-1 inputs), then the
+        # same prompt again: LoadCacheSlot must ask CanResume about the position it really resumes at
+        n = rng.randint(w + 1, numctx)
+        k = rng.choice([1, 2, 2, 2, 3, 4])
+        p = base[:n]
+        ops.append({"t": "submit", "prompt": p, "npred": k, "keep": 0})
+        ops += [{"t": "step"}] * (n + k + 3)
+        r = rng.random()
+        p2 = p if r < 0.7 else (p[:rng.randint(1, n)] if r < 0.85 else p + rnd_toks(rng, vocab, 1))
+        ops.append({"t": "submit", "prompt": p2, "npred": rng.choice([1, 2, 3]), "keep": 0})
+        if rng.random() < 0.3:
+            ops.append({"t": "submit", "cont": rng.randrange(2), "extra": rnd_toks(rng, vocab, rng.choice([0, 1])), "npred": 2, "keep": 0})
+    else:
+        nreq = 0
+        for _ in range(rng.randint(4, 12)):
+            if rng.random() < 0.4:
+                r = rng.random()
+                if nreq > 0 and r < 0.3:
+                    o = {"t": "submit", "cont": rng.randrange(nreq), "extra": rnd_toks(rng, vocab, rng.choice([0, 0, 1, 2]))}
+                elif r < 0.8:
+                    o = {"t": "submit", "prompt": base[:rng.randint(1, len(base))]}
+                else:
+                    o = {"t": "submit", "prompt": base[:rng.randint(0, len(base) - 1)] + rnd_toks(rng, vocab, rng.randint(1, 2))}
+                o["npred"] = rng.choice([1, 2, 3, 4, numctx + 2])
+                o["keep"] = keep()
+                ops.append(o)
+                nreq += 1
+            else:
+                ops += [{"t": "step"}] * rng.randint(1, 4)
+    return {"op": "hist", "cfg": cfg, "ops": ops, "drain": 40, "fresh": True, "freshsteps": 60, "klass": klass}
+
+
 CORPUS = [
     # fork a prefix into the second slot, overflow the fork: the shift fails on shared cells (the C07 defect)
     {"op": "hist", "cfg": {"parallel": 2, "kv": 16, "batch": 8, "vocab": 6, "eos": -1, "multi": True, "shift": True},
@@ -125,6 +172,8 @@ def gen_cases(ctx):
     klasses = ["mixed"] * 6 + ["fork-overflow"] * 2 + ["noshift-overflow", "multi"]
     for _ in range(n):
         cases.append(gen_case(rng, rng.choice(klasses)))
+    for _ in range(90 if ctx.quick() else 1500):
+        cases.append(gen_swa_case(rng, rng.choice(["swa-repeat", "swa-repeat", "swa-mixed"])))
     return cases
 
 
@@ -189,9 +238,23 @@ def monitor_case(c, o):
         cells = e["cells"]
         if len(cells) > par:
             out.append(({"class": "slot-cache-mismatch", "how": "foreign-sequence"}, "operation %d: the cache holds a sequence id outside the slots: %s" % (k, cells[par:])))
+        win = c["cfg"].get("window", 0)
         for i, s in enumerate(st["slots"]):
             want = [[j, t, j] for j, t in enumerate(s["inputs"])]
             have = cells[i]
+            if win > 0:
+                # a sliding-window cache keeps a suffix of the record: every stored cell must agree with the record, no
+                # position twice, and a slot in use must hold the whole window of the next position
+                n = len(want)
+                agree = all((x in want) if x[0] < n else (not s["inuse"]) for x in have) and len(set(x[0] for x in have)) == len(have)
+                if not agree:
+                    out.append(({"class": "slot-cache-mismatch", "how": "stale"},
+                                "operation %d: slot %d records inputs %s but the (sliding-window) cache holds [pos,tok,kpos] %s" % (k, i, s["inputs"], have)))
+                elif s["inuse"] and not set(range(max(0, n - win), n)) <= set(x[0] for x in have):
+                    out.append(({"class": "window-incomplete"},
+                                "operation %d: slot %d is in use with %d recorded inputs but the window (%d) before the next position is not stored: positions %s"
+                                % (k, i, n, win, sorted(x[0] for x in have))))
+                continue
             if s["inuse"]:
                 okc = have == want
             else:
@@ -210,8 +273,9 @@ def monitor_case(c, o):
             for j in range(len(f["toks"])):
                 s, p, vis = f["seqs"][j], f["pos"][j], f["vis"][j]
                 rec = st["slots"][s]["inputs"] if s < len(st["slots"]) else []
-                okv = [v[0] for v in vis] == list(range(p + 1)) and vis[p][1] == f["toks"][j] and \
-                    all(vis[x][1] == rec[x] for x in range(min(len(rec), p + 1)))
+                lo = max(0, p - win) if win > 0 else 0
+                okv = [v[0] for v in vis] == list(range(lo, p + 1)) and vis[p - lo][1] == f["toks"][j] and \
+                    all(vis[x - lo][1] == rec[x] for x in range(lo, min(len(rec), p + 1)))
                 if not okv:
                     out.append(({"class": "foreign-history"}, "operation %d: batch entry %d (seq %d, pos %d, token %d) attended to [kpos,tok] %s; recorded inputs %s"
                                 % (k, j, s, p, f["toks"][j], vis, rec)))
@@ -266,8 +330,10 @@ def rnd_stop(rng, vocab):
 
 
 def render_cfg(cfg, numctx):
-    return "(mkCfg %d %d %s %s %s %s (%d))" % (numctx, cfg["batch"], cq_bool(cfg["multi"]), cq_bool(cfg.get("shift", True)),
-                                               cq_bool(cfg.get("partial", True)), cq_bool(cfg.get("resume", True)), cfg.get("eos", -1))
+    w = cfg.get("window", 0)
+    return "(mkCfg %d %d %s %s %s %s (%d) %s)" % (numctx, cfg["batch"], cq_bool(cfg["multi"]), cq_bool(cfg.get("shift", True)),
+                                                  cq_bool(cfg.get("partial", True)), cq_bool(cfg.get("resume", True)), cfg.get("eos", -1),
+                                                  "(Some %d)" % w if w > 0 else "None")
 
 
 def render_op(c, e):
@@ -313,7 +379,14 @@ def attach_ops(c, o):
 
 def render(c, o):
     attach_ops(c, o)
-    tr = cq_list(["(%s, %s)" % (render_op(c, e), render_obs(e)) for e in o["trace"]], "(op * obs)")
+    # the model has no notion of cache capacity: a step on which StartForward found no room ends the comparison (the
+    # monitor reports the error itself)
+    trace = []
+    for e in o["trace"]:
+        if e["t"] == "step" and "could not find a kv cache slot" in (e["res"].get("err") or ""):
+            break
+        trace.append(e)
+    tr = cq_list(["(%s, %s)" % (render_op(c, e), render_obs(e)) for e in trace], "(op * obs)")
     return "chk_trace %d %s %d%%nat %s" % (c["cfg"]["vocab"], render_cfg(c["cfg"], o["numctx"]), c["cfg"]["parallel"], tr)
 
 
@@ -459,7 +532,20 @@ def features(c, o):
                                                                        for i in range(len(e["cells"])) for j in range(i)) for e in tr)
     emptied = any(e["t"] == "step" and any(s["inuse"] and not s["inputs"] for s in e["state"]["slots"]) and
                   any(q is not None and len(q["inputs"]) > 1 for q in e["state"]["seqs"]) for e in tr)
-    return {"after_failed_shift": emptied, "forked": forked, "can_shift": c["cfg"].get("shift", True)}
+    sig = {"after_failed_shift": emptied, "forked": forked, "can_shift": c["cfg"].get("shift", True)}
+    win = c["cfg"].get("window", 0)
+    if win > 0:
+        nctx = o.get("numctx", 0)
+        kept = any(min(len(e["prompt"] or []) if x.get("keep", 0) < 0 else x.get("keep", 0), nctx - 1) > 0
+                   for e in tr if e["t"] == "submit" for x in [e.get("_op") or {}])
+        shifted_ok = any(a["inuse"] and b["inuse"] and 0 < len(b["inputs"]) < len(a["inputs"])
+                         for e, pe in zip(tr[1:], tr) if e["t"] == "step" for a, b in zip(pe["state"]["slots"], e["state"]["slots"]))
+        viol = monitor_case(c, o)
+        sig.update({"window": True, "multi_slot": c["cfg"]["parallel"] >= 2,
+                    "swa_mid_shift": bool(kept and shifted_ok),
+                    "cache_full": any("could not find a kv cache slot" in (e["res"].get("err") or "") for e in tr),
+                    "cells_consistent": not any(s["class"] in ("slot-cache-mismatch", "window-incomplete", "foreign-history") for s, _ in viol)})
+    return sig
 
 
 def run(ctx):
@@ -512,6 +598,14 @@ def run(ctx):
             ctx.count("hist-with-prefix-reuse")
         if shifted:
             ctx.count("hist-with-shift")
+        if c["cfg"].get("window", 0) > 0 and any(e["t"] == "submit" and e["res"]["kind"] == "" and
+                                                 0 < len(e["state"]["slots"][e["state"]["seqs"][e["res"]["idx"]]["slot"]]["inputs"]) for e in tr):
+            ctx.count("swa-hist-with-resume")
+        if c["cfg"].get("window", 0) > 0 and any(e["t"] == "submit" and e["res"]["kind"] == "" and pe is not None and
+                                                 len(pe["state"]["slots"][e["state"]["seqs"][e["res"]["idx"]]["slot"]]["inputs"]) > 0 and
+                                                 len(e["state"]["slots"][e["state"]["seqs"][e["res"]["idx"]]["slot"]]["inputs"]) == 0
+                                                 for e, pe in zip(tr, [None] + tr)):
+            ctx.count("swa-hist-with-resume-refused")
         nstop = sum(1 for e in tr for rv in e["resp"].values() if rv.get("reason") == "stop")
         if nstop:
             ctx.count("requests-ended-by-stop-or-eos", nstop)
@@ -525,6 +619,7 @@ def run(ctx):
             reported.add(sig["class"])
             small = shrink(binp, c, sig["class"])
             so = run_one(binp, small) or o
+            attach_ops(small, so)
             sv = [x for x in monitor_case(small, so) if x[0]["class"] == sig["class"]] or [(sig, what)]
             fsig = dict(sv[0][0], **features(small, so))
             ctx.violation(fsig, sv[0][1], {"case": small, "impl": so, "all": [w for _, w in monitor_case(small, so)][:10]})
@@ -553,6 +648,7 @@ def replay(ctx, path):
     c = rp.get("case") if isinstance(rp, dict) else None
     if c and binp:
         o = run_one(binp, c)
+        attach_ops(c, o or {})
         for sig, what in monitor_case(c, o or {}):
             ctx.violation(dict(sig, **features(c, o)), what, {"case": c, "impl": o})
         return
